@@ -42,6 +42,7 @@ def run(check: Check, repo: Repo, tier: str) -> None:
     L.append_conditions(check, repo)
     L.root_exit_tests(check, repo)
     L.parallel_drives_given(check, repo)
+    L.skip_slot_truthy(check, repo)
     L.handler_lookup_owner(check, repo)
     G.class_memo_own(check, [f for mn in ("language.ast", "language.visitor") for f in repo.mod(mn).functions()])
     # controls
